@@ -140,6 +140,10 @@ var sinkBusy atomic.Int64
 func SinkBusy(d int64) int64 { return sinkBusy.Add(d) }
 var epochCounter atomic.Uint64
 
+// Deactivate forgets the active simulation without touching its tasks (used
+// when its bubble is already gone).
+func Deactivate() { active.Store(nil) }
+
 // Active returns the running simulation or nil.
 func Active() *Sim { return active.Load() }
 
